@@ -26,6 +26,17 @@ fn main() {
         println!("String: {:?}", serde_saphyr::from_str::<String>(&text).map_err(|e| e.to_string()));
         return;
     }
+    if id == "C01" && args[2] == "describe" {
+        println!("{}", props::c01::describe(Tier::Quick, args[3].parse().unwrap()));
+        return;
+    }
+    if args[2].starts_with("child-") {
+        let code = match id.as_str() {
+            "C01" => props::c01::child(&args[2..]),
+            _ => 2,
+        };
+        std::process::exit(code);
+    }
     let mut tier = match std::env::var("VERIF_TIER").ok().as_deref() {
         Some("thorough") => Tier::Thorough,
         _ => Tier::Quick,
